@@ -2,6 +2,7 @@ package checks
 
 import (
 	"fmt"
+	"regexp"
 	"strconv"
 	"strings"
 	"time"
@@ -294,6 +295,9 @@ func c10SmallTargets(prefix []string) []string {
 	return out
 }
 
+var c10RemoveIndex = regexp.MustCompile(`"op":"remove","path":"([^"]*)/([0-9]+)"`)
+var c10AnyIndex = regexp.MustCompile(`"path":"([^"]*)/([0-9]+)"`)
+
 func c10Spaces(tier string) []pairLeg {
 	var legs []pairLeg
 	add := func(name string, t *TextSet) { legs = append(legs, pairLeg{name, t, t}) }
@@ -431,6 +435,15 @@ func enumC10(tier string, e *engine.Emitter) {
 				// text that is a patch followed or preceded by something else is not an RFC 6902 document
 				for _, g := range []string{p0 + "]", p0 + ",", p0 + "\n" + p0, p0 + "{}", p0 + " x", "[]" + p0, p0[:len(p0)-1]} {
 					e.Do(engine.Case{Kind: "c10", Leg: l.Name + "/text-garbage", A: at, B: bt, C: at, X: g})
+				}
+				// pointers that are not RFC 6901 pointers (no leading '/', a URI fragment), and array indices spelled
+				// differently in the remove than in its test (leading zero, sign): numerically equal is not equal
+				for _, g := range []string{strings.ReplaceAll(p0, `"path":"/`, `"path":"x/`), strings.ReplaceAll(p0, `"path":"/`, `"path":"#/`), strings.ReplaceAll(p0, `"path":"/`, `"path":"`),
+					c10RemoveIndex.ReplaceAllString(p0, `"op":"remove","path":"${1}/0${2}"`), c10RemoveIndex.ReplaceAllString(p0, `"op":"remove","path":"${1}/+${2}"`),
+					c10RemoveIndex.ReplaceAllString(p0, `"op":"remove","path":"${1}/-${2}"`), c10AnyIndex.ReplaceAllString(p0, `"path":"${1}/0${2}"`)} {
+					if g != p0 {
+						e.Do(engine.Case{Kind: "c10", Leg: l.Name + "/pointer-spelling", A: at, B: bt, C: at, X: g})
+					}
 				}
 				targets := []string{at, bt}
 				for _, ed := range gen.Edits(l.A.Vals[i], []V{1.0, 2.0}, []string{"k"}) {
